@@ -228,11 +228,20 @@ def handleConn (inp impl : Json) : Verdict :=
   let qf := frameEnds prefaceLen ((fl.filter (·.1 == "q")).map (·.2))
   let pf := frameEnds 0 ((fl.filter (·.1 == "p")).map (·.2))
   let ws := wireEvents isServer { todo := if isServer then qf else pf } { todo := if isServer then pf else qf } callsJ
-  let wf := legal && wellFormed ws
+  -- the hypotheses of `Props.C15.traces_ok_every_interleaving` / `end_to_end`
+  let wf := legal && wellFormed ws && lossesOK ws
   let es := expects [] ws
+  -- the property's predicate (`Spec.deliveredOK`, the one of the theorems) on the implementation's traces
+  let delivered := !wf || deliveredOK isServer es iTraces
   let traceProblem := if wf then checkTraces isServer es iTraces else none
-  let holds := transparent && traceProblem.isNone
-  let agree := misses == 0 && mTraces == iTraces
+  let holds := transparent && delivered
+  -- the wire events the theorem speaks about (layer 1 of the model on the calls) are the
+  -- generator's frames in the order the calls complete them
+  let modelWs := Conn.wireEvents decR decW c0 calls
+  let wsAgree := !wf || modelWs == ws
+  -- instance of the theorem on this run: the model's own traces satisfy the predicate
+  let thmInstance := !wf || !(modelWs == ws) || deliveredOK isServer es (c.coll.out.map Trace.obs)
+  let agree := misses == 0 && mTraces == iTraces && wsAgree && thmInstance && (delivered == traceProblem.isNone)
   { agree := agree, holds := holds,
     nontrivial := if wf then !(namesOf es).isEmpty else !iTraces.isEmpty || c.rd.broken || c.wr.broken,
     model := Json.mkObj [("traces", Json.arr (mTraces.map obsJson).toArray), ("broken", Json.arr #[c.rd.broken, c.wr.broken]),
@@ -240,7 +249,12 @@ def handleConn (inp impl : Json) : Verdict :=
     why := if !transparent then "not transparent: " ++ str (field impl "viol")
            else match traceProblem with
              | some e => e
-             | none => if misses != 0 then "driver: decode table does not match the model's framing" else "",
+             | none =>
+               if !delivered then "the delivered traces do not satisfy Spec.deliveredOK"
+               else if misses != 0 then "driver: decode table does not match the model's framing"
+               else if !wsAgree then "driver: the wire events of the model's layer 1 differ from the generator's frames"
+               else if !thmInstance then "driver: the model's traces do not satisfy Spec.deliveredOK (contradicts Props.C15.end_to_end)"
+               else "",
     cls := if wf then (if (es.any (·.superseded)) then "wf-retry" else if es.any (fun e => e.held) then "wf-held" else "wf")
            else if legal then "legal-odd" else "malformed" }
 
